@@ -18,7 +18,7 @@ from .. import nf, vg
 from ..core import Ctx
 from ..model import AnalysisError
 
-FLOOR = 30
+FLOOR = 37
 EXPLANATION = (
     "Static taint analysis (sources: outputs of self.<module>(...) calls; sanitizers: .detach(), no_grad/inference_mode) of "
     "the value returned by all 7 REINFORCEBaseline.eval implementations, CriticBaseline's loss, PPO's advantage and the rollout "
